@@ -578,6 +578,14 @@ func isWriteEvent(fn *ssa.Function) bool {
 					writeEventMemo[fn] = 1
 				}
 			}
+			// a wrapper (write + flush, …): it hands its own string parameter on as the event name of an event writer
+			if sc := cc.StaticCallee(); sc != nil && sc != fn && isWriteEvent(sc) {
+				for _, a := range cc.Args {
+					if p, ok := a.(*ssa.Parameter); ok && p.Type().String() == "string" && p.Parent() == fn {
+						writeEventMemo[fn] = 1
+					}
+				}
+			}
 		}
 	})
 	return writeEventMemo[fn] == 1
@@ -900,6 +908,10 @@ func (s *sseSim) val(v ssa.Value, env map[ssa.Value]absV, g sseG) absV {
 	case *ssa.ChangeType:
 		return s.val(x.X, env, g)
 	}
+	// there is one stream state per translation: any pointer to it (a constructor's result, a parameter) is that object
+	if _, isPtr := v.Type().(*types.Pointer); isPtr && isNamed(deref(v.Type()), pkgAnthropic, "StreamingState") {
+		return absV{kind: 6}
+	}
 	return absV{}
 }
 
@@ -1203,7 +1215,7 @@ func checkC13(c *Ctx, r *Report) {
 			}
 			eachInstr(f, func(in ssa.Instruction) {
 				if call, ok := in.(*ssa.Call); ok {
-					if sc := call.Call.StaticCallee(); isWriteEvent(sc) && strings.Contains(fname(f), "Translator") && !strings.Contains(fname(f), "test") {
+					if sc := call.Call.StaticCallee(); isWriteEvent(sc) && !isWriteEvent(f) && strings.Contains(fname(f), "Translator") && !strings.Contains(fname(f), "test") {
 						sites[fname(f)+":"+eventNameArg(&call.Call)] = in.Pos()
 					}
 				}
